@@ -39,6 +39,7 @@ table! {
     c01::h_tokeniser,
     c01::h_cmp,
     c01::h_glue,
+    c01::h_token_strings,
     c02::h_compile,
     c02::h_match,
     c18::h_any,
